@@ -71,13 +71,14 @@ func specs() []*spec {
 		},
 		{
 			ID: "C06", Harness: "trackersim", Level: "exploration",
-			Batch: 200, QuickSecs: 25, ThoroughSecs: 600, PlanTimeoutS: 5,
-			RequiredProbes: []string{"filters_checked", "quiescent_checks", "release_err"},
+			Parts: []part{{Harness: "trackersim", Share: 0.7, Batch: 200}, {Harness: "clustersim", Share: 0.3, Batch: 20}},
+			Batch: 200, QuickSecs: 35, ThoroughSecs: 600, PlanTimeoutS: 30,
+			RequiredProbes: []string{"filters_checked", "quiescent_checks", "release_err", "global_status_checked", "global_listing_checked", "unreachable_allocated_peer"},
 			Rule:           "same plans as C05; at every quiescent instant Status(cid) and StatusAll are compared by class with each other and with the facts (pinset entry, daemon content, last outcome), and 19 filters (every single status, the two composites, 5 unions) are checked against the filter law. Non-trivial = >=1 client operation and >=1 fired fault; distinct = distinct canonical trace digest.",
 			Real:           trackerReal, Model: trackerModel,
 			Assumptions: []string{
 				"views are compared by class {pinned, remote, sharded, unpinned-or-absent, error, pending}: pin_error in one view and unexpectedly_unpinned in the other is agreement",
-				"cluster-wide view (Cluster.Status/StatusAll peer maps) is checked by the clustersim scenario, not here",
+				"part 2 (clustersim): 1-4 real Cluster peers plus 0-2 members that are down answer Status(cid) and the unfiltered StatusAll() at an observer while links are cut; each peer's tracker reports what the plan tells it; expected peer map: own report for allocated reachable peers, cluster_error for allocated unreachable ones, remote for the other members, unpinned everywhere for an item outside the pinset; the filtered cluster-wide listing is not judged (the statement defines filtering for a peer's listing)",
 			},
 		},
 		{
